@@ -5,7 +5,7 @@
   (bank (<module> …) (<op> …))                        → (<result> …)
       module ::= (<mod> (sub …) (<class> …))          mod ::= (pkg sub|none)
       class  ::= (<mod> qn alias|none unimpl inner (<classid> …) (<mod> …))      classid ::= (<mod> qn)
-      op     ::= (import <mod>) | (get <classid> <ref> (<mod> …))            ref ::= (a n) | (q <mod> qn)
+      op     ::= (import <mod>) | (reload <mod> (interned-qn …)) | (get <classid> <ref> (<mod> …))     ref ::= (a n) | (q <mod> qn)
                  (the module list of a `get` is the observed iteration order of the bank's path set: it has to be a
                  permutation of the model's path set — `bad-order` otherwise —; the repaired `Bank.get` sorts, so it is
                  not used any further)
@@ -131,9 +131,11 @@ def ref? : Sexp → Option Ref
 inductive Op where
   | imp : Mod → Op
   | get : ClassId → Ref → List Mod → Op
+  | reload : Mod → List Nat → Op
 
 def op? : Sexp → Option Op
   | .list [.atom "import", m] => (mod? m).map .imp
+  | .list [.atom "reload", m, interned] => do pure (.reload (← mod? m) (← interned.natList?))
   | .list [.atom "get", i, r, .list order] => do pure (.get (← classId? i) (← ref? r) (← order.mapM mod?))
   | _ => none
 
@@ -152,6 +154,11 @@ def runOps (w : World) : St → List Op → List Sexp
   | st, .imp m :: rest =>
     match importMod w st m with
     | none => .atom "notfound" :: runOps w (afterNotFound w st m) rest
+    | some (st', some e) => .list [.atom "err", ofErr e] :: runOps w st' rest
+    | some (st', none) => .atom "ok" :: runOps w st' rest
+  | st, .reload m interned :: rest =>
+    match reloadMod w interned st m with
+    | none => .atom "notfound" :: runOps w st rest
     | some (st', some e) => .list [.atom "err", ofErr e] :: runOps w st' rest
     | some (st', none) => .atom "ok" :: runOps w st' rest
   | st, .get i r order :: rest =>
